@@ -45,7 +45,8 @@ Definition protocol_ok (ops : list op) : bool := protocol_from false false ops.
 Definition vtuples (v : view) : list (list nat) := fst (fst v).
 Definition incl_b (a b : list (list nat)) : bool := forallb (fun t => lmem t b) a.
 
-(* provider law P3, per view: what total serves after a merge was served by total or delta before it *)
+(* provider law P3, per view, in the form the semi-naive argument needs: what total serves after a merge was served by total
+   or delta before it, or is served by delta now (then the delta variants of the coming iteration cover it) *)
 Fixpoint p3_check (ops : list op) (items : list item) (prev : option (list view * list view)) : bool :=
   match ops, items with
   | o :: ops', it :: items' =>
@@ -54,7 +55,8 @@ Fixpoint p3_check (ops : list op) (items : list item) (prev : option (list view 
     | OMerge, RRead d t =>
       match prev with
       | Some (pd, pt) =>
-        forallb (fun x => incl_b (vtuples (fst x)) (vtuples (snd (snd x)) ++ vtuples (fst (snd x)))) (combine t (combine pd pt))
+        forallb (fun x => incl_b (vtuples (fst (fst x))) (vtuples (snd (fst x)) ++ vtuples (snd (snd x)) ++ vtuples (fst (snd x))))
+                (combine (combine t d) (combine pd pt))
       | None => true
       end && p3_check ops' items' (Some (d, t))
     | _, _ => p3_check ops' items' prev
